@@ -172,6 +172,10 @@ func checkParseOpts(text string, walk bool) (fails []vf.Failure) {
 					fails = append(fails, *f)
 				} else if s == "" {
 					fails = append(fails, vf.Failf("render|empty", "%s: HumanString(%d) is empty", mode, k))
+				} else if strings.Contains(s, "out of range (len ") {
+					// the renderer's own words for a position it cannot find in the
+					// source it was given: every position lies inside the input
+					fails = append(fails, vf.Failf("render|line-out-of-range", "%s: HumanString(%d) could not place a diagnostic in the source:\n%s", mode, k, s))
 				}
 			}
 		}
@@ -237,7 +241,7 @@ func classify(text string) (nontrivial bool, cls string) {
 // One or two representative spellings per token kind, plus the malformed forms.
 var alphabet = []string{
 	"a", "é名", "true", // IDENT (ascii, multi-byte), BOOL
-	`"s"`, `"a\"b"`, `"x`, `"\q"`, // STRING, escaped, unterminated, bad escape
+	`"s"`, `"a\"b"`, `"x`, `"\q"`, "\"x\\\n", // STRING, escaped, unterminated, bad escape, escaped newline then nothing
 	"/re/", "/r", // REGEX, unterminated
 	"1", "1.5", "1.2.3", // INT, DECIMAL, second dot
 	"// c", "/* c */", "/* u", // COMMENT, BLOCK_COMMENT, unterminated block comment
